@@ -42,15 +42,20 @@ def run2(ctx):
                 st = rnd.sample(st, 500)
             behs += st
             ctx.log("  + %d distinct post-Import state witnesses" % len(st))
-    d = 20 if q else 30
-    for w, off in ((0, 6), (5, 0)):   # negative times with OOO + compaction only in the exhaustive configs (see KF-C20-8)
+    # thorough: the quick tier's walk shape for six consecutive TLC seeds (deeper / more numerous random walks reach corners
+    # where Db.tla's restart = WAL replay no longer describes a snapshot restart: see DESIGN.md 9.2b)
+    d = 20
+    seeds = [ctx.seed] if q else [ctx.seed + i for i in range(6)]
+    for w, off, sd in [(w, off, sd) for sd in seeds for (w, off) in ((0, 6), (5, 0))]:   # negative times with OOO + compaction only in the exhaustive configs (see KF-C20-8)
         if not ctx.want("sim"):
             continue
-        sim = ctx.tlc("db", "Db", "SIM_c53.cfg", simulate=(20 if q else 1200), depth=6 * d, workers=8,
+        ctx.tlc_seed = sd
+        sim = ctx.tlc("db", "Db", "SIM_c53.cfg", simulate=20, depth=6 * d, workers=8,
                       constants={"MaxOps": d, "W": w, "TOff": off}, timeout=(300 if q else 2400))
         ctx.account(sim)
         behs += sim.emitted
-        ctx.log("SIM W=%d TOff=%d: %d walks" % (w, off, len(sim.emitted)))
+        ctx.log("SIM W=%d TOff=%d seed=%d: %d walks" % (w, off, sd, len(sim.emitted)))
+    ctx.tlc_seed = None
     ctx.samples = [behs[0], behs[len(behs) // 2], behs[-1]]
     inp = ctx.write_ndjson("behaviours.ndjson", behs)
     gr = ctx.go_test("tsdb", ["db_replay_test.go", "db_reopen_extras_test.go"], "^TestVerifDbReplay$",
